@@ -104,16 +104,35 @@ func (c *ctx) spellings() {
 			// (a)
 			if ic := clause["*go/ast.Ident"]; ic != nil {
 				blk := &ast.BlockStmt{List: ic.Body}
-				asks := false
+				// the clause itself and the helpers of the package it calls (`dot.ident(n)`)
+				bodies := []*ast.BlockStmt{blk}
 				ast.Inspect(blk, func(m ast.Node) bool {
 					if call, ok := m.(*ast.CallExpr); ok {
-						if fn := astx.Callee(info, call); fn != nil && predicate != nil && fn == predicate {
-							asks = true
+						if fn := astx.Callee(info, call); fn != nil && fn.Pkg() == c.inter.Types {
+							for _, f2 := range c.files {
+								if d := astx.DeclOfFunc(info, []*ast.File{f2.file}, fn); d != nil && d.Body != nil {
+									bodies = append(bodies, d.Body)
+								}
+							}
 						}
 					}
 					return true
 				})
-				if asks && c.reportsDiagnostic(blk) {
+				asks, reports := false, false
+				for _, b := range bodies {
+					ast.Inspect(b, func(m ast.Node) bool {
+						if call, ok := m.(*ast.CallExpr); ok {
+							if fn := astx.Callee(info, call); fn != nil && predicate != nil && fn == predicate {
+								asks = true
+							}
+						}
+						return true
+					})
+					if c.reportsDiagnostic(b) {
+						reports = true
+					}
+				}
+				if asks && reports {
 					how = "plain identifiers that denote a directive are reported"
 				}
 			}
